@@ -261,6 +261,8 @@ func rulesC07(e *Engine, r *Report) {
 	// ---------------------------------------------------------------- R07.9
 	r.Rule("R07.9", "what the restarted sender and receiver learn from their logs is complete: `was this already logged as sent?` (WasSent, asked before the recovery writes a Sent record) and the receiver's cache refill both go through the day-file loop, which visits every calendar day of the range including the closing one - else today's records are missed, a file is logged as sent twice or a delivered file is taken for missing and sent again in full - shared with R18.5")
 	e.checkDayLoop(r, "R07.9")
+	// ---------------------------------------------------------------- R07.10
+	e.shareRule(r, "C10", "R10.6", "R07.10", "the chain continues from the files handled before the crash: the placeholders recovery queues for confirmed or receiver-only files stay linked as predecessors when Pop skips them - the loop unlinks what lies before a placeholder, never the placeholder itself")
 }
 
 // outermostLoop returns the header and back-edge terminators of the outermost
